@@ -39,6 +39,7 @@ package merkleblock
 
 //@ func merkleblock.NewMerkleBlockFromMsg
 //@   requires len(msg.Flags) < 536870912
+//@   alloc 8 * len(msg.Flags) + len(msg.Hashes) + 64
 //@   ensures result != nil && fresh(result) && result.numTx == msg.Transactions && len(result.bits) == 8 * len(msg.Flags) && !result.bad && result.bitsUsed == 0 && result.hashesUsed == 0
 //@   ensures len(result.finalHashes) == len(msg.Hashes) && len(result.matchedHashes) == 0 && len(result.matchedItems) == 0
 //@   modifies nothing
